@@ -108,7 +108,7 @@ def main():
         "id": sid,
         "breaks_property": props[0],
         "summary": meta.get("summary"),
-        "needs_to_manifest": meta.get("needs"),
+        "needs_to_manifest": meta.get("needs_to_manifest") or meta.get("needs"),
         "files": meta.get("files"),
         "author": "fresh sub-agent given only the property text and a "
                   "scratch worktree",
